@@ -42,6 +42,15 @@ GROUPINGS = {
 }
 
 
+# other definitions of the SAME layout names (a second manager of the same process, e.g. a 3-D potential next to another 3-D field, or
+# two test set-ups in one interpreter): used before the explored swapper is built, so that nothing a manager remembers may be keyed by
+# layout names alone
+ALIASES = {
+    'driver': [{'v_parallel_2d': [1, 2, 0], 'mode_solve': [0, 2, 1]}, {'v_parallel_1d': [0, 2, 1]}, {'poloidal': [2, 1, 0]}],
+    'upstream4': [{'flux_surface2': [0, 2, 1, 3], 'v_parallel': [0, 3, 1, 2], 'poloidal': [3, 2, 1, 0]}, L4B],
+}
+
+
 def cases(tier, seed):
     out = []
     rng = (1, 2, 3) if tier == 'quick' else (1, 2, 3, 4)
@@ -98,8 +107,8 @@ def run_case(case):
     triples = list(itertools.product(names, repeat=3))
     start = names[0]
 
-    def make_ctx(r):
-        s = LayoutSwapper(MPI.COMM_WORLD, [dict(g) for g in groups], [list(n) if isinstance(n, list) else n for n in nprocs], eta, start)
+    def make_ctx(r, grps=None):
+        s = LayoutSwapper(MPI.COMM_WORLD, [dict(g) for g in (grps or groups)], [list(n) if isinstance(n, list) else n for n in nprocs], eta, start)
         n = s.bufferSize
         bufs = [np.full(n, P, dtype=dtype) for _ in range(3)]
         la = s.getLayout(start)
@@ -194,8 +203,23 @@ def run_case(case):
             counters['ctx'] = c
         return c
 
+    alias_viol = []
+    alias_steps = 0
+    if case['grouping'] in ALIASES and case['mode'] == 'walk':
+        # a manager with other orderings under the same names does every direct move (and is itself checked) before the explored one exists
+        al = ALIASES[case['grouping']]
+        pairs = [(a, b, a) for a in names for b in names if a != b]
+        ares, aerr, _ = lay.run_items(size, lambda r: make_ctx(r, al), pairs, do_item)
+        if aerr is None:
+            for i, tr in enumerate(pairs):
+                res = ares.get(i, {'problems': ['missing'], 'exc': None})
+                alias_steps += 2
+                if res.get('exc'):
+                    alias_viol.append({'sig': 'alias-manager:exception:' + res.get('exc_type', '?'), 'what': 'manager with other orderings under the same names: sequence %s raised %s (%s shape %r grid %r)' % ('->'.join(tr), res['exc'], case['grouping'], shape, case['p']), 'detail': {}})
+                for pb in sorted(set(res.get('problems', []))):
+                    alias_viol.append({'sig': 'alias-manager:wrong:' + pb.split('(')[0], 'what': 'manager with other orderings under the same names: sequence %s: %s (%s shape %r grid %r)' % ('->'.join(tr), pb, case['grouping'], shape, case['p']), 'detail': {}})
     results, cerr, nworlds = lay.run_items(size, make_ctx_counted, triples, do_item)
-    stats = {'worlds': nworlds, 'rejected_groupings': 0, 'states': 0, 'transitions': 0}
+    stats = {'worlds': nworlds, 'rejected_groupings': 0, 'states': 0, 'transitions': 0, 'alias_manager_moves': alias_steps}
     if cerr is not None:
         if 'could not be connected' in cerr or cerr.startswith('AssertionError'):
             stats['rejected_groupings'] = 1
@@ -204,6 +228,8 @@ def run_case(case):
         return {'evals': 1, 'nontrivial': 0, 'violations': [{'sig': sig, 'what': 'LayoutSwapper construction failed: %s (%r)' % (cerr, case), 'detail': {}}],
                 'stats': stats, 'sample': None}
     seen = {}
+    for v in alias_viol:
+        seen.setdefault(v['sig'], v)
     for i, tr in enumerate(triples):
         res = results.get(i, {'problems': ['missing'], 'exc': None})
         if res.get('skipped'):
